@@ -161,6 +161,20 @@ let run_sender fields = match fields with
      | SFuel -> "FUEL")
   | _ -> failwith "sender: want 4 fields"
 
+(* ---- recv: receive_data on a raw stream ---- *)
+let run_recv fields = match fields with
+  | [seed; basis; wire] ->
+    let b = if basis = "none" then None else Some (bytes_of_hex basis) in
+    (match fst (receive_data h_native (z_of_string seed) b (bytes_of_hex wire)) with
+     | Commit bs -> "C:" ^ hex_of_bytes bs
+     | Reject _ -> "E:corruption"
+     | RErrShort -> "E:eof"
+     | RErrBasisRead -> "E:eof"
+     | RErrHead -> "E:head"
+     | RErrNoBasis -> "E:nobasis"
+     | RErrFuel -> "E:fuel")
+  | _ -> failwith "recv: want 3 fields"
+
 (* ---- acl ---- *)
 let acl_rule (t : string) : rule =
   match split ':' t with
@@ -190,6 +204,7 @@ let dispatch comp fields =
   | "acl" -> run_acl fields
   | "md4" -> run_md4 fields
   | "sender" -> run_sender fields
+  | "recv" -> run_recv fields
   | _ -> failwith ("unknown component " ^ comp)
 
 let () =
